@@ -67,6 +67,8 @@ type c13Obs struct {
 
 type c13Hist struct {
 	idx     int
+	ignoreInt   bool // daemons started with SIGINT ignored (nohup / background-job disposition)
+	cancelEarly bool // many cancels right after the submit
 	dir     string
 	run     *ev.Run
 	L, R    *ctl.Daemon
@@ -118,6 +120,11 @@ func (h *c13Hist) newUnit(rng *rand.Rand) *c13Unit {
 		u.Spec.Chunks = []GenChunk{{N: 1 + rng.Intn(300)}}
 		u.Spec.Exit = 1 + rng.Intn(3)
 	case "empty":
+	case "endless":
+		// runs for 20 minutes unless it is stopped: a cancel cannot be mistaken for the job ending by itself
+		for i := 0; i < 2400; i++ {
+			u.Spec.Chunks = append(u.Spec.Chunks, GenChunk{N: 10, PauseMs: 500})
+		}
 	case "stubborn":
 		// a long-running command that ignores SIGINT: cancelling it needs the runner's escalation to SIGKILL
 		u.Spec.IgnoreInt = true
@@ -252,8 +259,22 @@ func (h *c13Hist) cancelOp(u *c13Unit) {
 	u.mu.Lock()
 	started := u.subDone != 0
 	u.mu.Unlock()
-	reply, err := ctlLine(h.L, "work cancel "+u.ID, 40*time.Second)
+	reply, err := ctlLine(h.L, "work cancel "+u.ID, 180*time.Second)
 	h.count("cancel")
+	if err != nil && !u.Remote && h.L.Alive() && strings.Contains(err.Error(), "timeout") {
+		// receptor escalates to SIGKILL 10 s after the interrupt, so a cancel of a local unit that is still
+		// unanswered after 3 minutes while the unit's process lives did not stop it
+		pid := readPid(u.PidFile)
+		runners := runnerPids(filepath.Join(h.L.DataDir(), u.ID))
+		if (pid > 0 && ctl.PidAlive(pid)) || len(runners) > 0 {
+			cls := "running"
+			if !started {
+				cls = "during-submit"
+			}
+			h.viol("cancel:no-reply-process-alive:"+cls, fmt.Sprintf("`work cancel %s` (%s, daemon started with SIGINT ignored: %v) got no reply within 3 minutes and the unit's process is still alive (producer pid %d, runner pids %v)", u.ID, u.Kind, h.L.IgnoreSIGINT, pid, runners), nil)
+		}
+		return
+	}
 	if err != nil || !strings.Contains(reply, `"cancelled"`) {
 		return
 	}
@@ -423,6 +444,23 @@ func (h *c13Hist) client(ci int, seed int64, nops int, burst *sync.WaitGroup, bu
 				<-done
 			} else if rng.Intn(8) == 0 {
 				h.submitAbort(u, rng.Int63())
+			} else if rng.Intn(6) == 0 || (h.cancelEarly && rng.Intn(2) == 0) {
+				// cancel at once: the command runner has only just been launched
+				if h.cancelEarly {
+					u.Kind, u.Remote = "endless", false
+					u.Spec.Chunks = nil
+					for k := 0; k < 2400; k++ {
+						u.Spec.Chunks = append(u.Spec.Chunks, GenChunk{N: 10, PauseMs: 500})
+					}
+					u.Spec.Exit = 0
+					u.Payload = mustJSON(u.Spec)
+				}
+				h.submit(u)
+				if u.ID != "" {
+					time.Sleep(time.Duration(rng.Intn(40)) * time.Millisecond)
+					h.count("cancel-right-after-submit")
+					h.cancelOp(u)
+				}
 			} else {
 				h.submit(u)
 			}
@@ -559,13 +597,13 @@ func (h *c13Hist) execute(seed int64, nclients, nops int) {
 	if h.sleeps != "" {
 		env = append(env, "VERIF_POINTS="+h.sleeps)
 	}
-	h.R = ctl.NewDaemon(ctl.Cfg{ID: "r", Dir: filepath.Join(h.dir, "r"), Listen: true, Work: genw, Env: []string{"VERIF_STATUS_LOG=" + filepath.Join(h.dir, "status-r.log")}})
+	h.R = ctl.NewDaemon(ctl.Cfg{ID: "r", Dir: filepath.Join(h.dir, "r"), Listen: true, Work: genw, IgnoreSIGINT: h.ignoreInt, Env: []string{"VERIF_STATUS_LOG=" + filepath.Join(h.dir, "status-r.log")}})
 	if err := h.R.Start(); err != nil {
 		run.Inconclusive(fmt.Sprintf("C13 history %d: remote daemon did not start: %v", h.idx, err))
 		return
 	}
 	defer h.R.Kill()
-	h.L = ctl.NewDaemon(ctl.Cfg{ID: "l", Dir: filepath.Join(h.dir, "l"), Peers: []string{fmt.Sprintf("127.0.0.1:%d", h.R.ListenPort)}, Work: genw, Env: env})
+	h.L = ctl.NewDaemon(ctl.Cfg{ID: "l", Dir: filepath.Join(h.dir, "l"), Peers: []string{fmt.Sprintf("127.0.0.1:%d", h.R.ListenPort)}, Work: genw, IgnoreSIGINT: h.ignoreInt, Env: env})
 	if err := h.L.Start(); err != nil {
 		run.Inconclusive(fmt.Sprintf("C13 history %d: daemon did not start: %v", h.idx, err))
 		return
@@ -870,7 +908,15 @@ func runC13(tier string, args []string) {
 		h := &c13Hist{idx: i, dir: filepath.Join(work, fmt.Sprintf("h%d", i)), run: run, acks: map[string]int{}, ops: map[string]int{}}
 		h.sleeps = c13Delays[(i+int(run.Seed))%len(c13Delays)]
 		h.restart = i%4 == 3
+		h.ignoreInt = i%2 == 1
 		hists = append(hists, hs{h, rng.Int63(), 4 + rng.Intn(5)})
+	}
+	{
+		// one more history per run: the runner is slow to install its signal handler (hook delay before it), the
+		// daemons ignore SIGINT as under nohup, and half of the submits are cancelled at once
+		h := &c13Hist{idx: nh, dir: filepath.Join(work, fmt.Sprintf("h%d", nh)), run: run, acks: map[string]int{}, ops: map[string]int{}}
+		h.sleeps, h.ignoreInt, h.cancelEarly = "runner:runner.init=sleep(400)", true, true
+		hists = append(hists, hs{h, rng.Int63(), 4})
 	}
 	if len(args) >= 2 && args[0] == "--hist" {
 		var idx int
